@@ -487,11 +487,9 @@ def dispatch(ctx, facts):
             t = b.term(bb)
             if t["k"] == "switch":
                 e = flow.expr_of(b, t["o"])
-                if e[0] == "disc" and e[1][-1] == "route" and e[1][:2] in (("proj", ("upvar", "req")), ("upvar", "req")):
+                if e[0] == "disc" and e[1][-1] == "route" and e[1][0] in ("proj", "upvar", "arg"):      # the request's `route` field, whatever the request variable is called
                     sw = (bb, t)
                     break
-                if e[0] == "disc" and "route" in str(e[1])[-12:] and "req" in str(e[1]):
-                    sw = (bb, t)
                     break
         if sw is None:
             ctx.missing("TABLE-dispatch", f"{side}: match on req.route")
